@@ -259,6 +259,12 @@ class Subprocess:
 
         Availability: Unix
         """
+        if self.returncode is not None:
+            # The exit has already been reported (to an earlier callback or
+            # wait_for_exit future) and the process has been reaped, so
+            # waitpid has nothing more to tell us: report the stored code.
+            self.io_loop.add_callback(callback, self.returncode)
+            return
         self._exit_callback = callback
         Subprocess.initialize()
         Subprocess._waiting[self.pid] = self
